@@ -799,8 +799,8 @@ def compare(ctx, cases, drv):
     res = [None] * len(cases)
     for i, r in zip(par, core.pmap(run_impl_safe, [cases[i] for i in par], chunksize=4)):
         res[i] = r
-    for i in spark:
-        res[i] = run_impl_safe(cases[i])
+    for i, r in zip(spark, core.fresh_process_map(run_impl_safe, [cases[i] for i in spark])):
+        res[i] = r
     mres_flat = drv.pbatch(reqs)
     by_case_req = [[] for _ in cases]
     by_case_m = [[] for _ in cases]
